@@ -227,6 +227,15 @@ func (pr *PropertyRun) finish(p *Prog, evidenceDir string, kf []KnownFinding) in
 		"distinct_nontrivial": v.obligations,
 		"rule":               "one obligation per (rule, construct) instance enumerated from the type-checked program; distinct by key; every instance is non-trivial (it names a concrete function / site / pair in /repo)",
 	}
+	// symbols of the current tree relative to the pinned symbol table (align.go)
+	var unknown []string
+	for _, fn := range p.Funcs {
+		if fn.Parent() == nil && fn.Synthetic == "" && !p.KnownFunc(fn) {
+			unknown = append(unknown, p.FuncKey(fn))
+		}
+	}
+	cov["pinned_symbol_aliases"] = aliasNotes
+	cov["functions_unknown_to_pinned_table_expanded_in_place"] = unknown
 	for k, x := range pr.Extra {
 		cov[k] = x
 	}
